@@ -182,6 +182,10 @@ pub fn settle(property: &str, candidates: Vec<Case>, max_replays: usize) -> Summ
         if !seen.insert(key.clone()) {
             continue;
         }
+        if sum.violations.len() >= 10 {
+            sum.replay_errors.push("10 violations confirmed; remaining candidates not replayed".to_string());
+            break;
+        }
         if replays >= max_replays {
             sum.replay_errors.push("replay cap reached; remaining candidates not replayed".to_string());
             break;
@@ -190,7 +194,7 @@ pub fn settle(property: &str, candidates: Vec<Case>, max_replays: usize) -> Summ
         let js = case.to_json();
         let path = format!("{}/{}-{:016x}.json", dir, property, fnv(&js.to_string()));
         let _ = std::fs::write(&path, serde_json::to_string_pretty(&js).unwrap());
-        match replay_case(&case, &path, Duration::from_secs(10)) {
+        match replay_case(&case, &path, Duration::from_secs(5)) {
             Replay::Reproduced(what) => {
                 if let Some(id) = known.matches(&case, &what) {
                     let e = sum.known.entry(id).or_insert((0, format!("{} {} L{} w{} program {:?}: {}", case.backend.name(), mode_name(&case), case.level, case.width, short(&case.program), what)));
